@@ -3,6 +3,7 @@ package load
 import (
 	_ "embed"
 	"fmt"
+	"go/token"
 	"go/types"
 	"os"
 	"sort"
@@ -147,6 +148,11 @@ var GlueStruct = map[string]bool{}
 // PromoWrapper holds the promotion wrappers (*T).M -> (*G).M(&t.g) for a glue struct G embedded in a repository
 // struct T that is not glue. They stand for T's method M and are normalised and analysed like source functions.
 var PromoWrapper = map[*ssa.Function]bool{}
+
+// BoundAdopted holds the bound-method wrappers (x.M used as a function value) of helper methods the pinned tree does
+// not have, created at exactly one place: the wrapper, with the method absorbed into it, is analysed as a closure of
+// the function that creates it (a closure and a method value of a small context struct are the same program).
+var BoundAdopted = map[*ssa.Function]bool{}
 
 func glueStructs(prog *ssa.Program) {
 	base := map[string]bool{}
@@ -383,6 +389,7 @@ func canonParamNames(fns []*ssa.Function) int {
 	}
 	return n
 }
+
 var baselineFullSig = map[string]string{}
 
 // SigKey renders a signature without parameter names (renaming a parameter is not a different function).
@@ -618,6 +625,7 @@ func normalise(prog *ssa.Program) (map[*ssa.Function]bool, *ssa.VerifNorm, []str
 	cg := cha.CallGraph(prog)
 	absorbable := map[*ssa.Function]bool{}
 	why := map[*ssa.Function]string{}
+	boundOf := map[*ssa.Function]*ssa.Function{} // bound-method wrapper -> the glue method it forwards to
 	for fn := range glue {
 		ok := true
 		n := cg.Nodes[fn]
@@ -639,7 +647,9 @@ func normalise(prog *ssa.Program) (map[*ssa.Function]bool, *ssa.VerifNorm, []str
 					why[fn] = "called through a closure value"
 					break
 				}
-				if syn := e.Caller.Func.Synthetic; syn != "" && !PromoWrapper[e.Caller.Func] {
+				if syn := e.Caller.Func.Synthetic; strings.HasPrefix(syn, "bound method wrapper for ") && glue[fn] {
+					boundOf[e.Caller.Func] = fn
+				} else if syn != "" && !PromoWrapper[e.Caller.Func] {
 					// a pointer-receiver/promotion wrapper that nothing calls is no use of the method;
 					// a bound-method closure or thunk means the method's value is taken
 					if strings.HasPrefix(syn, "wrapper ") && len(e.Caller.In) == 0 {
@@ -679,6 +689,34 @@ func normalise(prog *ssa.Program) (map[*ssa.Function]bool, *ssa.VerifNorm, []str
 			}
 		}
 	}
+	// a method value x.M of a helper method: the wrapper go/ssa makes for it is adopted by the one function that
+	// creates it; a helper whose value is taken at several places, or together with other uses, stays a function
+	if len(boundOf) > 0 {
+		sites := map[*ssa.Function][]*ssa.Function{}
+		for fn := range ssautil.AllFunctions(prog) {
+			for _, b := range fn.Blocks {
+				for _, in := range b.Instrs {
+					if mc, ok := in.(*ssa.MakeClosure); ok {
+						if w, ok := mc.Fn.(*ssa.Function); ok && boundOf[w] != nil {
+							sites[w] = append(sites[w], fn)
+						}
+					}
+				}
+			}
+		}
+		for w, g := range boundOf {
+			if len(sites[w]) != 1 || !absorbable[g] {
+				absorbable[g] = false
+				if why[g] == "" {
+					why[g] = "used as a method value at several places"
+				}
+				continue
+			}
+			ssa.VerifAdopt(sites[w][0], w)
+			BoundAdopted[w] = true
+			renames = append(renames, w.String()+": method value of a helper method, analysed as a closure of "+sites[w][0].String())
+		}
+	}
 	norm.Glue = func(callee *ssa.Function) bool { return absorbable[callee] }
 	// no function of the repository recovers from a panic: a helper's deferred calls can then be placed at its exits
 	norm.NoRecover = true
@@ -696,6 +734,111 @@ func normalise(prog *ssa.Program) (map[*ssa.Function]bool, *ssa.VerifNorm, []str
 			}
 		}
 	}
+	// package-level slice tables written by their package initialiser only and read only through len and element
+	// loads: a loop over such a table can be unrolled from the literal in the initialiser
+	roTable := map[*ssa.Global]bool{}
+	for _, sp := range prog.AllPackages() {
+		if sp.Pkg == nil || !strings.HasPrefix(sp.Pkg.Path(), ModulePath) {
+			continue
+		}
+		for _, mem := range sp.Members {
+			if g, ok := mem.(*ssa.Global); ok {
+				if pt, ok := g.Type().Underlying().(*types.Pointer); ok {
+					if _, isSl := pt.Elem().Underlying().(*types.Slice); isSl {
+						roTable[g] = true
+					}
+					if _, isArr := pt.Elem().Underlying().(*types.Array); isArr {
+						roTable[g] = true
+					}
+				}
+			}
+		}
+	}
+	if len(roTable) > 0 {
+		stores := map[*ssa.Global]int{}
+		arrayInit := map[*ssa.Global]bool{}
+		var ops []*ssa.Value
+		for fn := range ssautil.AllFunctions(prog) {
+			for _, b := range fn.Blocks {
+				for _, in := range b.Instrs {
+					ops = in.Operands(ops[:0])
+					for _, r := range ops {
+						g, ok := (*r).(*ssa.Global)
+						if !ok || !roTable[g] {
+							continue
+						}
+						switch x := in.(type) {
+						case *ssa.Store:
+							if x.Addr == ssa.Value(g) && fn.Name() == "init" && fn.Pkg == g.Pkg && fn.Parent() == nil {
+								stores[g]++
+								continue
+							}
+							roTable[g] = false
+						case *ssa.UnOp:
+							if x.Op != token.MUL || x.Referrers() == nil {
+								roTable[g] = false
+								continue
+							}
+							if _, isArr := x.Type().Underlying().(*types.Array); isArr {
+								continue // a copy of the whole array: whatever is done to it does not touch the table
+							}
+							for _, u := range *x.Referrers() {
+								switch y := u.(type) {
+								case *ssa.Call:
+									if bi, isB := y.Call.Value.(*ssa.Builtin); !isB || bi.Name() != "len" {
+										roTable[g] = false
+									}
+								case *ssa.IndexAddr:
+									if y.Referrers() != nil {
+										for _, u2 := range *y.Referrers() {
+											if ld, isLd := u2.(*ssa.UnOp); !isLd || ld.Op != token.MUL {
+												roTable[g] = false
+											}
+										}
+									}
+								case *ssa.DebugRef:
+								default:
+									roTable[g] = false
+								}
+							}
+						case *ssa.IndexAddr:
+							// an array table: elements are stored by the package initialiser and only loaded elsewhere
+							if x.X != ssa.Value(g) || x.Referrers() == nil {
+								roTable[g] = false
+								continue
+							}
+							inInit := fn.Name() == "init" && fn.Pkg == g.Pkg && fn.Parent() == nil
+							for _, u := range *x.Referrers() {
+								switch y := u.(type) {
+								case *ssa.UnOp:
+									if y.Op != token.MUL {
+										roTable[g] = false
+									}
+								case *ssa.Store:
+									if !inInit || y.Addr != ssa.Value(x) {
+										roTable[g] = false
+									} else {
+										arrayInit[g] = true
+									}
+								case *ssa.DebugRef:
+								default:
+									roTable[g] = false
+								}
+							}
+						default:
+							roTable[g] = false
+						}
+					}
+				}
+			}
+		}
+		for g := range roTable {
+			if stores[g] != 1 && !arrayInit[g] {
+				roTable[g] = false
+			}
+		}
+	}
+	norm.ReadOnlyTable = func(g *ssa.Global) bool { return roTable[g] }
 	for _, fn := range fns {
 		if absorbable[fn] {
 			continue // only ever seen through its callers
